@@ -58,7 +58,12 @@ RULE = ('kinds: volt_tol = TOLERANCE STREAM, counted apart (never non-trivial, o
         'ROUND 5: volt_tol range-end family (decimal amplitudes; voltages exactly on offset +- amplitude where that sum is '
         'exact, binary64 neighbours inside, with offset 0 one ulp outside = must be rejected).  classify files a failing avg '
         'case under the known finding only if the loop variant shows exactly the documented two-pointer behaviour '
-        '(py_avg_loop) and numpy variant and public function are right.')
+        '(py_avg_loop) and numpy variant and public function are right.  ROUND 6: on the volt_tol stream check_corr is now '
+        'EXACT as well (binary64 model Model.volt_numpy64 / volt_loop64 / volt_public64: every operation of the code rounded with '
+        'Model.b64; the tolerance relation is kept beside it); check_spec unchanged (tolerance).  Deterministic family '
+        'gen_volt_tol_ends2 (offset 0; amplitude / resolution pairs 0.9@16, 1.4@14, 0.7 / 1.1 / 1.3@8, 1.0@16, 0.5@12, 0.1@16, '
+        '5.0@14): both range ends with 1..3 ulp inside in one accepted list, 1 / 3 ulp outside either end (must be rejected), and '
+        'voltages whose float scaled value is exactly a half-way point k + 1/2.')
 TRUSTED = [
     'Coq 8.16.1 kernel + vm_compute (no native_compute)',
     'translator /verif/translate/py2gallina_c20.py (typed Z/Q/bool/arrays, canonical loop state by liveness; fail-closed; output '
@@ -67,8 +72,8 @@ TRUSTED = [
     'element kinds of unannotated array parameters (GEN table in the harness)',
     'numpy: elementwise float arithmetic is exact on the generated (dyadic) inputs of the exact streams; rint = half-to-even; '
     'searchsorted; binary64 rounding is modelled (Model.b64, proved equal to Flocq round-to-nearest-even) only for the sample '
-    'grid and the products of the decimal window stream: there numpy / CPython multiplication and division are trusted to '
-    'be correctly rounded IEEE operations',
+    'grid, the products of the decimal window stream and (round 6) the four operations of voltage_to_uint16 on the decimal '
+    'voltage stream: there numpy / CPython arithmetic is trusted to be correctly rounded IEEE arithmetic',
     'Waveform.get_sampled is the sampling function of a waveform (its own contract is property C08); the harness samples '
     'it on its own grid float(Fraction(k) / rate) (CPython int / int true division is correctly rounded; = k / rate for dyadic '
     'rates) and hands the values to the model',
@@ -94,7 +99,11 @@ ASSUMPTIONS = [
     'decimal window stream: begins, lengths >= 0, products below 2^22 samples',
     'binary64 theorems (C20_float_*): Flocq format FLT(-1074, 53), round-to-nearest-even, overflow not modelled; they rest '
     'on the real-number axioms of the standard library (sig_forall_dec, sig_not_dec, functional_extensionality_dep, classic)',
-    'tolerance stream: voltages stay 1e-6*amplitude away from the range ends (the float range test may go either way there)',
+    'tolerance stream: the random family stays 1e-6*amplitude away from the range ends; the range-end families (round 5 / 6) use '
+    'only offsets for which v - offset is exact at the ends (so that exact specification and float range test speak about the '
+    'same number); amplitudes 1e-3 .. 33.3 (theorems: 2^-500 .. 2^500), resolutions 1..16',
+    'binary64 voltage model (round 6): numpy / CPython subtraction, addition, multiplication, division are correctly rounded '
+    'IEEE operations, 2 * amplitude does not overflow',
 ]
 
 GEN = [   # (generated file, source file in the repo, kernels, declared element kinds of unannotated / ndarray parameters)
@@ -253,6 +262,47 @@ def gen_volt_tol_ends(rng, tier, out):
                     for v in (math.nextafter(ends[0], -math.inf), math.nextafter(ends[1], math.inf)):
                         out.append({'kind': 'volt_tol', 'amp': fs(F(fa)), 'off': '0', 'res': res,
                                     'vs': [fs(F(x)) for x in (ends[0], v, ends[1])], 'decimal': [amp, off], 'ends': True})
+
+
+def gen_volt_tol_ends2(tier, out):
+    """round 6 (deterministic, draws nothing; class of seed C20-9: a range test on the SCALED value instead of on v - offset).
+    Offset 0 (so v - offset is exact and the exact specification and the float range test speak about the same number),
+    amplitude / resolution pairs for which (2 amp) * fl((2^r - 1) / (2 amp)) is above, below or exactly 2^r - 1; voltages ON both
+    range ends and 1, 2, 3 ulp inside (one accepted list), and each of 1, 2, 3 ulp OUTSIDE either end alone with the two ends
+    (must be rejected).  check_corr compares all of them EXACTLY with the binary64 model (Model.volt_numpy64 / volt_loop64)."""
+    pairs = [('0.9', 16), ('1.4', 14), ('0.7', 8), ('1.1', 8), ('1.3', 8), ('1.0', 16), ('0.5', 12), ('0.1', 16), ('5.0', 14)]
+    if tier == 'thorough':
+        pairs += [(a, r) for a in ('0.9', '1.4', '0.7', '1.1', '1.3', '0.1', '5.0', '0.3', '2.3', '1e-3', '33.3') for r in (1, 2, 7, 8, 13, 14, 15, 16)]
+    for amp, res in pairs:
+        fa = float(amp)
+
+        def step(v, n, towards):
+            for _ in range(n):
+                v = math.nextafter(v, towards)
+            return v
+        ins = [-fa] + [step(-fa, n, 0.0) for n in (1, 2, 3)] + [0.0] + [step(fa, n, 0.0) for n in (3, 2, 1)] + [fa]
+        out.append({'kind': 'volt_tol', 'amp': fs(F(fa)), 'off': '0', 'res': res, 'vs': [fs(F(v)) for v in ins],
+                    'decimal': [amp, '0'], 'ends': True})
+        for n in ((1, 2, 3) if tier == 'thorough' else (1, 3)):
+            for v in (step(-fa, n, -math.inf), step(fa, n, math.inf)):
+                out.append({'kind': 'volt_tol', 'amp': fs(F(fa)), 'off': '0', 'res': res,
+                            'vs': [fs(F(x)) for x in (-fa, v, fa)], 'decimal': [amp, '0'], 'ends': True})
+        # voltages whose FLOAT scaled value (the code's order of operations) is exactly a half-way point k + 1/2 (the tie goes to
+        # the even code) although amplitude and voltage are no dyadic-simple numbers: any other order of the float operations
+        # (scale folded differently, division instead of multiplication) lands an ulp beside it and gives the other code
+        M = 2 ** res - 1
+        scale = M / (2 * fa)
+        ties = []
+        for k in sorted({0, 1, 2, M // 3, M // 2, M - 2, M - 1} - {M, -1}):
+            if k < 0:
+                continue
+            v0 = (k + 0.5) / scale - fa
+            cands = [v0] + [step(v0, n, math.inf) for n in range(1, 9)] + [step(v0, n, -math.inf) for n in range(1, 9)]
+            hit = [v for v in cands if abs(v) <= fa and (v + fa) * scale == k + 0.5]
+            ties += hit[:2]
+        if ties:
+            out.append({'kind': 'volt_tol', 'amp': fs(F(fa)), 'off': '0', 'res': res, 'vs': [fs(F(v)) for v in sorted(ties)],
+                        'decimal': [amp, '0'], 'ties': True})
 
 
 def gen_mono(rng, tier, out):
@@ -805,6 +855,7 @@ def gen_cases(rng, tier, ctx):
     gen_sample_np2(rng, tier, out)
     gen_sample_empty(rng, tier, out)
     gen_volt_tol_ends(rng, tier, out)      # round 5; last, so that the earlier families draw the same numbers as before
+    gen_volt_tol_ends2(tier, out)          # round 6; deterministic (no draws)
     drng = __import__('random').Random(rng.getrandbits(64))
     out = [decorate(drng, c) for c in out]
     drng.shuffle(out)       # the Coq shards are contiguous slices: mix the kinds so that no shard gets all the big literals
@@ -1978,17 +2029,26 @@ MANIFEST = {
                   'correspondence only.  ROUND 5 (audit): the sampling specification in Spec.v no longer uses any routine of the '
                   'model (own sample-count, channel-value and marker-value definitions; bridging lemmas), so C20_sampling relates '
                   'the flat-memory model to a model-free formula; ProofsWitness.v gives a non-trivial input for the hypotheses of '
-                  'every guarded theorem; C20_grid_edge_side now includes an edge at time 0.  TESTED ONLY (no theorem): the numpy '
+                  'every guarded theorem; C20_grid_edge_side now includes an edge at time 0.  ROUND 6: range ends and code range in '
+                  'binary64 are theorems (amplitude 2^-500..2^500, 1..16 bit): if the binary64 difference v - offset equals '
+                  '+amplitude / -amplitude the float code is 2^res-1 / 0; every voltage the code\'s own range test accepts gets a '
+                  'float code in 0..2^res-1; an exactly-in-range voltage is accepted when the amplitude is a binary64 number; an '
+                  'executable binary64 model of both variants (code64, volt_numpy64, volt_loop64, volt_public64) is proved to be '
+                  'that float computation, its variants equal, its accepted results = float codes in the code range, monotone, ends '
+                  'on the extreme codes (C20_volt64_accepts) and is compared EXACTLY with the implementation on the decimal stream.  '
+                  'TESTED ONLY (no theorem): the numpy '
                   'variants and _average_windows_numba as code (correspondence), purity of every routine, that _sample_waveforms '
-                  'samples on the grid of get_sample_times, range ends / half-step error in binary64 beyond the 2^-30 bound, the '
-                  'extra clauses of the shrink checker (fails exactly when a window would lose all samples; minimal shrink), and '
-                  'that the models pass the executable checkers spec_tw / spec_shrink / spec_volt.  Not covered: amplitude 0, '
+                  'samples on the grid of get_sample_times, the half-step error in binary64 beyond the 2^-30 bound, and that the '
+                  'binary64 models pass the tolerance checkers spec_volt_tol / spec_tw_tol as wholes.  ROUND 6 also: the models pass '
+                  'the executable checkers of check_spec for ALL inputs: spec_shrink (incl. fails exactly when a window would lose '
+                  'all samples, minimal shrink, first window untouched, flag iff change), spec_volt (amplitude > 0) and spec_tw '
+                  '(C20_shrink_/volt_/windows_model_passes_checker).  Not covered: amplitude 0, '
                   'transformations other than identity / affine / square, float rounding of (T(x) - offset) / amplitude.',
     'level_note': 'Trusted: Coq kernel, the C20 translator (incl. its reading of numpy calls and float arithmetic as exact '
                   'rationals), numpy elementwise float arithmetic on dyadic inputs, Waveform.get_sampled as the sampling '
                   'function, harness.  Models are tied to /repo by an exact correspondence check that calls both internal '
                   'implementations of every routine and the public entry point; decimal (inexact) voltages and decimal windows '
-                  'run as separate tolerance streams (windows: correspondence exact, specification with tolerance); sample grids '
+                  'run as separate tolerance streams (correspondence exact through binary64 models, specification with tolerance); sample grids '
                   'are compared bit for bit.',
     'technique': 'Coq proof over hand-written + AST-translated kernels (text-independent simulation proofs), correspondence '
                  'check (vm_compute) against both numpy and loop variants, Flocq for the binary64 statements',
